@@ -313,7 +313,8 @@ class ContractMixin:
             exc = getattr(self, "cur_exc", None)
             f = z3.simplify(args[0].t).as_string()
             if exc is None or f not in (exc.fields or {}):
-                raise Unsupported("raised(%r): the exception carries no such field here" % f, node)
+                raise Unsupported("raised(%r): the exception carries no such field here (%s with fields %s)" % (
+                    f, getattr(exc, "cls", None), sorted((getattr(exc, "fields", None) or {}).keys())), node)
             return exc.fields[f]
         if name == "result":
             raise Unsupported("result is a name, not a function", node)
@@ -576,13 +577,13 @@ class ContractMixin:
         return ci
 
     # ------------------------------------------------------------------ loops
-    def loop_with_invariant(self, node, st, kind, iterable=None, reverse=False, items_of=None):
+    def loop_with_invariant(self, node, st, kind, iterable=None, reverse=False, items_of=None, enum_from=None):
         qual = st.env.get("__qual__")
         ordinal = self.loop_ordinals.get(id(node))
         ci = self.cur_ci
         if ci is None or qual != (self.cur_qual or "").split("@")[0] or ordinal is None or ordinal not in ci.invariants:
             if kind == "for" and isinstance(iterable, Val) and isinstance(iterable.ty, (TSeq, TSet, TLSet)) and ci is not None:
-                wl, wh, _t, _r = self.discover_writes(node, st, kind, iterable, items_of)
+                wl, wh, _t, _r = self.discover_writes(node, st, kind, iterable, items_of, enum_from)
                 if not wl and not wh and not any(isinstance(n, (ast.Return, ast.Raise, ast.Break)) for n in ast.walk(node)):
                     # the body changes nothing that is modelled (only opaque / effect-free calls): skipping it is exact
                     self.note_assumption("loop at line %s of %s has no modelled effect and is skipped (assumed to terminate)" % (node.lineno, qual))
@@ -622,15 +623,15 @@ class ContractMixin:
             return out
 
         # 1. discover the write set with one scratch pass over the body
-        wl, wh, types, wrefs = self.discover_writes(node, st, kind, iterable, items_of)
+        wl, wh, types, wrefs = self.discover_writes(node, st, kind, iterable, items_of, enum_from)
         # coerce entry values of locals to their loop types (e.g. [] -> Seq)
         types.update({n: t for n, t in ci.decl.opts.get("locals", {}).items() if n in wl})
         for n, ty in types.items():
             if n in st.env and st.env[n] is not None and isinstance(ty, Ty):
                 try:
                     st.env[n] = coerce(st.env[n], ty)
-                except TypeError:
-                    raise Unsupported("local %s changes type inside the loop" % n, node)
+                except (TypeError, AttributeError):
+                    raise Unsupported("local %s changes type inside the loop (%r before it)" % (n, st.env[n]), node)
         # 2. invariant holds on entry
         for lab, c in inv_terms(st, ghosts):
             self.check(st, c, "inv-init", "loop%d:%s" % (ordinal, lab), node)
@@ -702,6 +703,8 @@ class ContractMixin:
                 pos = (z3.Length(iterable.t) - 1 - ghosts["_i"].t) if reverse else ghosts["_i"].t
                 elem = Val(iterable.ty.elem, [iterable.t[pos]])
                 self.assume_wellformed(s1, elem)
+                if enum_from is not None:
+                    elem = PyList([mk_int(enum_from + ghosts["_i"].t), elem], is_tuple=True)
                 starts = self.assign(node.target, elem, s1, node)
             elif set_mode and items_of is not None:
                 vx = Val(items_of.ty.val, [z3.Select(a, x.t) for a in items_of.terms[1:]])
@@ -738,7 +741,7 @@ class ContractMixin:
             s1.assume(c)
             yield from self.exec_block(node.orelse, s1)
 
-    def discover_writes(self, node, st, kind, iterable, items_of=None):
+    def discover_writes(self, node, st, kind, iterable, items_of=None, enum_from=None):
         s = st.clone()
         s.written = set()
         s.written_locals = set()
@@ -750,6 +753,8 @@ class ContractMixin:
         try:
             if kind == "for":
                 dummy = fresh(iterable.ty.elem, "_d")
+                if enum_from is not None:
+                    dummy = PyList([fresh(Int, "_di"), dummy], is_tuple=True)
                 if items_of is not None:
                     dummy = PyList([dummy, fresh(items_of.ty.val, "_dv")], is_tuple=True)
                 starts = list(self.assign(node.target, dummy, s, node))
